@@ -307,7 +307,17 @@ func exchange(addr string, stream []byte, greetLen int, sequential bool) ([]byte
 	return got, nil
 }
 
-func e2eListener(g *tcpRig, stream []byte, sequential bool) *failure {
+// e2eListener: a verdict that rests on what a real socket delivered is confirmed by two more exchanges.
+func e2eListener(g *tcpRig, stream []byte, sequential bool) (f *failure) {
+	for attempt := 0; attempt < 3; attempt++ {
+		if f = e2eListenerOnce(g, stream, sequential); f == nil {
+			return nil
+		}
+	}
+	return f
+}
+
+func e2eListenerOnce(g *tcpRig, stream []byte, sequential bool) *failure {
 	const p = "C20/listener-e2e"
 	ref := refNegotiate(stream)
 	greetLen := 0
@@ -450,24 +460,37 @@ var (
 
 func getAdapterRig() (*adapterRig, error) {
 	adOnce.Do(func() {
-		probe, err := net.Listen("tcp", "127.0.0.1:0")
-		if err != nil {
-			adErr = err
+		// the adapter does not expose the port it bound: pick a free one first (retry if it is taken in between)
+		for attempt := 0; attempt < 5; attempt++ {
+			probe, err := net.Listen("tcp", "127.0.0.1:0")
+			if err != nil {
+				adErr = err
+				continue
+			}
+			addr := probe.Addr().String()
+			probe.Close()
+			a := adapter.NewSocksAdapter(context.Background(), nil, nil)
+			if err := a.ListenFrom(addr); err != nil {
+				adErr = err
+				continue
+			}
+			adRig, adErr = &adapterRig{a, addr}, nil
 			return
 		}
-		addr := probe.Addr().String()
-		probe.Close()
-		a := adapter.NewSocksAdapter(context.Background(), nil, nil)
-		if err := a.ListenFrom(addr); err != nil {
-			adErr = err
-			return
-		}
-		adRig = &adapterRig{a, addr}
 	})
 	return adRig, adErr
 }
 
-func judgeAdapter(stream []byte, sequential bool) *failure {
+func judgeAdapter(stream []byte, sequential bool) (f *failure) {
+	for attempt := 0; attempt < 3; attempt++ {
+		if f = judgeAdapterOnce(stream, sequential); f == nil {
+			return nil
+		}
+	}
+	return f
+}
+
+func judgeAdapterOnce(stream []byte, sequential bool) *failure {
 	const p = "C20/adapter"
 	g, err := getAdapterRig()
 	if err != nil {
@@ -501,8 +524,11 @@ func judgeAdapter(stream []byte, sequential bool) *failure {
 		}
 		return nil
 	}
-	reps := ref.Reps
+	reps := append([]byte(nil), ref.Reps...)
 	required := ref.ReplyRequired
+	if ref.Cmd == rCmdBind || ref.Cmd == rCmdUDP {
+		reps = append(reps, 7) // this adapter serves CONNECT only: 07 is appropriate as soon as CMD has been read
+	}
 	if err := checkWritten(w, ref.Sel, reps, required); err != nil {
 		if !sequential {
 			if w2, e2 := exchange(g.addr, stream, greetLen, true); e2 == nil && checkWritten(w2, ref.Sel, reps, required) == nil {
